@@ -33,6 +33,7 @@ ASSUMPTIONS = [
 ]
 DT0 = 2.0**-6
 PRE = ["out.h5", "out.h5.tmp", "out-1.h5", "out-1.h5.tmp"]
+MID_CHUNKS = 4
 CHUNKS = 8  # HDF5-op fault points of one configuration are split over this many cases (op index mod CHUNKS)
 DATASETS = ("psi", "mu", "supercurrent", "normal_current", "induced_vector_potential")
 
@@ -93,6 +94,12 @@ def cases(tier, seed):
             for kind in ("exc", "kbd_off"):
                 for r in range(CHUNKS):
                     out.append(dict(N=N, k=k, th=0, kind=kind, loc="h5setup", stage="main", idx=-1, chunk=r, output="out.h5", pre=[]))
+    # stop points *inside* the real update (before/after each of its documented sub-steps)
+    for scr in (False, True):
+        for kind in ("kbd_off", "exc"):
+            for k, f in ([(4, 5), (3, 1)] if quick else [(4, 5), (3, 1), (2, 3), (5, 5), (1, 2)]):
+                for r in range(MID_CHUNKS):
+                    out.append(dict(fam="mid", screening=scr, kind=kind, k=k, f=f, chunk=r, N=7))
     # pre-existing files
     for r in range(0, len(PRE) + 1):
         for sub in itertools.combinations(PRE, r):
@@ -415,7 +422,152 @@ def _check(case, loc, idx, obs, res):
     return sig
 
 
+SUBSTEPS = ("solve_for_psi_squared", "solve_for_observables", "get_induced_vector_potential")
+_MIDREF = {}
+
+
+def _mid_run(case, point, path, k, steps):
+    """One real run (tiny device, real update). `point` = index of the stop point inside the update of
+    step case['f'] (2*c = before sub-call c, 2*c+1 = after it), or None for no fault.
+    Returns (n_points_seen_in_step_f, solution, exception)."""
+    import tdgl
+
+    from .. import drivers, env
+
+    dev = drivers.tiny(2, terminals=True)
+    dt = 2.0**-5
+    opts = tdgl.SolverOptions(
+        solve_time=steps * dt, dt_init=dt, dt_max=dt, adaptive=False, save_every=k, output_file=path,
+        include_screening=case["screening"], screening_tolerance=1e-3, pause_on_interrupt=False, progress_interval=10**9,
+    )
+    solver = tdgl.TDGLSolver(dev, opts, applied_vector_potential=0.4, terminal_currents={"source": 2.0, "drain": -2.0})
+    st = {"step": -1, "calls": 0, "fired": False}
+    exc_obj = env.InjectedFault("injected") if case["kind"] == "exc" else KeyboardInterrupt()
+    orig_update = solver.update
+
+    def update(state, running_state, dt_, **kw):
+        st["step"] = int(state["step"])
+        if st["step"] == case["f"]:
+            st["calls"] = 0
+        return orig_update(state, running_state, dt_, **kw)
+
+    solver.update = update
+
+    def wrap(name):
+        orig = getattr(solver, name)
+
+        def w(*a, **kw):
+            if st["step"] == case["f"]:
+                c = st["calls"]
+                st["calls"] += 1
+                if point is not None and not st["fired"] and point == 2 * c:
+                    st["fired"] = True
+                    raise exc_obj
+                out = orig(*a, **kw)
+                if point is not None and not st["fired"] and point == 2 * c + 1:
+                    st["fired"] = True
+                    raise exc_obj
+                return out
+            return orig(*a, **kw)
+
+        setattr(solver, name, w)
+
+    for nm in SUBSTEPS:
+        wrap(nm)
+    sol, exc = None, None
+    try:
+        sol = solver.solve()
+    except BaseException as e:  # noqa: BLE001
+        exc = e
+    n_points = 2 * st["calls"] if st["step"] >= case["f"] else 0
+    etype = type(exc).__name__ if exc is not None else None
+    injected = exc is exc_obj
+    return n_points, sol, etype, injected, st["fired"]
+
+
+def run_mid(case):
+    from .. import drivers, env
+
+    res = CaseResult()
+    res.key = case_key(case)
+    N, k, f = case["N"], case["k"], case["f"]
+    refkey = (case["screening"], case["f"])
+    if refkey not in _MIDREF:
+        npts, _, _, _, _ = _mid_run(case, None, "ref.h5", 1, N)
+        frames, _ = drivers.read_frames("ref.h5")
+        _MIDREF[refkey] = ({int(fr["attrs"]["step"]): fr for fr in frames}, npts)
+    ref, npts = _MIDREF[refkey]
+    res.count("mid_points_enumerated", npts)
+    res.executions = 0
+    for pt in range(case["chunk"], npts, MID_CHUNKS):
+        path = f"mid{pt}.h5"
+        _, sol, etype, injected, fired = _mid_run(case, pt, path, k, N)
+        res.executions += 1
+        res.transitions += 1
+        res.states.add(f"mid;scr={case['screening']};sub={SUBSTEPS[(pt // 2) % 3] if case['screening'] else pt // 2};after={pt % 2}")
+        sig = dict(fault=case["kind"], loc="inside-update", screening=case["screening"])
+        if not fired:
+            res.violate("mid-fault-did-not-fire", **sig)
+            continue
+        res.count("faults_fired")
+        if case["kind"] == "exc":
+            if not injected:
+                res.violate("exception-not-propagated", got=etype, **sig)
+            exp = RM.expected_stopped(k, f, "error")
+        else:
+            if etype is not None:
+                res.violate("cancel-raises", got=etype, **sig)
+            elif sol is None:
+                res.violate("cancel-returns-none", **sig)
+            exp = RM.expected_stopped(k, f, "cancel")
+        if env.open_h5_files():
+            res.violate("file-left-open", closed_by_gc=False, **sig)
+        if any(n.endswith(".tmp") for n in os.listdir(".")):
+            res.violate("tmp-file-left-behind", **sig)
+        frames, _ = drivers.read_frames(path)
+        labels = [int(fr["attrs"]["step"]) for fr in frames]
+        if labels != exp:
+            res.violate("frames-not-those-before-stop", n_obs_minus_exp=len(labels) - len(exp), **sig,
+                        detail={"expected": exp, "observed": labels, "case": case, "point": pt})
+            continue
+        for fr, lab in zip(frames, labels):
+            msg = _frame_complete(fr)
+            if msg:
+                res.violate("partial-frame", n=1, **sig, detail={"frame": lab, "why": msg})
+                break
+            bad = None
+            for d in DATASETS:
+                if not np.array_equal(fr["data"][d], ref[lab]["data"][d]):
+                    bad = d
+                    break
+            if bad:
+                res.violate(
+                    "frame-content-untruthful", dataset=bad, final_frame=(lab == labels[-1]), **sig,
+                    detail={"case": case, "point": pt, "label": lab,
+                            "max_abs_diff": float(np.abs(np.asarray(fr["data"][bad]) - np.asarray(ref[lab]["data"][bad])).max())},
+                )
+                break
+            if float(fr["attrs"]["time"]) != float(ref[lab]["attrs"]["time"]):
+                res.violate("frame-time", **sig, detail={"label": lab})
+                break
+        if sol is not None:
+            try:
+                lab = labels[-1]
+                if not np.array_equal(sol.tdgl_data.induced_vector_potential, ref[lab]["data"]["induced_vector_potential"]) or not np.array_equal(
+                    sol.tdgl_data.psi, ref[lab]["data"]["psi"]
+                ):
+                    res.violate("partial-solution-untruthful", **sig, detail={"case": case, "point": pt})
+            except Exception as e:  # noqa: BLE001
+                res.violate("partial-solution-unusable", exc=type(e).__name__, memory_only=False, **sig)
+        os.remove(path)
+    res.nontrivial = res.executions > 0
+    res.outcome = f"mid;{case['kind']};scr={case['screening']}"
+    return res
+
+
 def run_case(case):
+    if case.get("fam") == "mid":
+        return run_mid(case)
     res = CaseResult()
     res.key = case_key(case)
     loc = case["loc"]
